@@ -1,0 +1,71 @@
+/*
+ * Verification facade (feature `verif`, off by default, add-only): exposes what the AWS builder computes
+ * -- the custom-auth CONNECT username/password, the final connect options, the client options after
+ * `apply_aws_defaults` -- in the textual form of gneiss_mqtt::verif.
+ */
+
+use crate::*;
+
+fn hex(bytes: &[u8]) -> String {
+    let mut s = String::from("x");
+    for b in bytes { s.push_str(&format!("{:02x}", b)); }
+    s
+}
+
+fn unhex(s: &str) -> Result<Vec<u8>, String> {
+    let body = s.strip_prefix('x').ok_or("bad hex")?;
+    (0..body.len()).step_by(2).map(|i| u8::from_str_radix(body.get(i..i + 2).ok_or("odd hex")?, 16).map_err(|_| "bad hex".to_string())).collect()
+}
+
+fn get<'a>(args: &'a str, key: &str) -> Option<&'a str> {
+    args.split(' ').find_map(|p| p.strip_prefix(key).and_then(|r| r.strip_prefix('=')))
+}
+
+fn get_str(args: &str, key: &str) -> Result<Option<String>, String> {
+    match get(args, key) {
+        None => Ok(None),
+        Some(v) => String::from_utf8(unhex(v)?).map(Some).map_err(|_| "bad utf8".to_string()),
+    }
+}
+
+fn custom_auth_of(args: &str) -> Result<AwsCustomAuthOptions, String> {
+    let authorizer = get_str(args, "authorizer")?;
+    let mut builder =
+        if let Some(signature) = get_str(args, "signature")? {
+            AwsCustomAuthOptions::builder_signed(authorizer.as_deref(), &signature,
+                &get_str(args, "tokenkey")?.unwrap_or_default(), &get_str(args, "tokenvalue")?.unwrap_or_default())
+        } else {
+            AwsCustomAuthOptions::builder_unsigned(authorizer.as_deref())
+        };
+    if let Some(u) = get_str(args, "username")? { builder.with_username(&u); }
+    if let Some(p) = get(args, "password") { builder.with_password(&unhex(p)?); }
+    Ok(builder.build())
+}
+
+/// `aws.customauth authorizer=x.. signature=x.. tokenkey=x.. tokenvalue=x.. username=x.. password=x..`
+/// -> `res=ok username=x.. [password=x..]`
+pub fn custom_auth(args: &str) -> Result<String, String> {
+    let options = custom_auth_of(args)?;
+    let mut out = format!("res=ok username={}", hex(options.username.as_bytes()));
+    if let Some(p) = &options.password { out.push_str(&format!(" password={}", hex(p))); }
+    Ok(out)
+}
+
+/// `aws.connect [customauth args] | <connect options text>` -> the final connect options (client id as hex)
+pub fn final_connect_options(args: &str, connect_text: &str) -> Result<String, String> {
+    let user_options = gneiss_mqtt::verif::connect_options_from_text(connect_text)?;
+    let builder =
+        if get(args, "custom").is_some() {
+            AwsClientBuilder::new_direct_with_custom_auth("localhost", custom_auth_of(args)?, None).map_err(|e| e.to_string())?
+        } else {
+            AwsClientBuilder::new_direct_with_mtls_from_memory("localhost", b"", b"", None).map_err(|e| e.to_string())?
+        };
+    let finalized = builder.build_final_connect_options(user_options);
+    Ok(format!("res=ok {}", gneiss_mqtt::verif::connect_options_text(&finalized)))
+}
+
+/// `aws.defaults | <client options text>` -> the client options after `apply_aws_defaults`
+pub fn client_defaults(options_text: &str) -> Result<String, String> {
+    let options = gneiss_mqtt::verif::client_options_from_text(options_text)?;
+    Ok(format!("res=ok {}", gneiss_mqtt::verif::client_options_text(&apply_aws_defaults(options))))
+}
